@@ -36,7 +36,9 @@ META = {
                  "TLC judges every recorded observation",
 }
 
-ORDER_CLAUSES = ["ExactlyOnceNoDuplicate", "OnlyEmitted", "InEmissionOrder", "DeliveredBeforeOutcome", "ContentPreserved"]
+ORDER_CLAUSES = ["ExactlyOnceNoDuplicate", "OnlyEmitted", "InEmissionOrder", "DeliveredBeforeOutcome", "DeliveredByEndOfStream",
+                 "ContentPreserved"]
+ROUTES = {"pipe": ["inline", "inline", "shm", "ext"], "http": ["inline", "inline", "ext"]}
 ORDER_INVS = [f"Inv_{c}" for c in ORDER_CLAUSES] + ["NoWedge", "NothingLost"]
 
 
@@ -63,6 +65,8 @@ def order_cause(sc: dict, prog: dict, res: dict) -> str:
             why.add("log_then_raise")
         if sc["tr"] == "http" and sc["kind"] == "exch" and missing & {lg["id"] for lg in st["post"]}:
             why.add("http_exchange_post_log")
+        if sc["tr"] == "pipe" and missing & {lg["id"] for lg in st["post"]}:
+            why.add("pipe_post_log_met_at_exit")
     return "+".join(sorted(why, reverse=True)) or "none"
 
 
@@ -100,37 +104,47 @@ def part_order(ctx: Ctx, wd, worlds) -> None:
         sc = cases[k]["script"]
         x = 1 + (i % 1900)
         prog, specs = G.order_prog(sc, ctx.rng)
-        res = G.run_order_script(worlds[sc["tr"]], sc, x, prog, specs)
+        # the model's "pipe" / "http" stand for every output route of that transport: one is drawn per script
+        route = ("buf" if sc["tr"] == "http_buf" else ctx.rng.choice(ROUTES[sc["tr"]]))
+        if route == "shm":
+            for stp in prog["steps"]:
+                stp["rows"] = ctx.rng.choice([1, 20000])          # >= SHM_MIN_BATCH_BYTES: through the segment
+        res = G.run_order_script(worlds["http" if sc["tr"] == "http_buf" else sc["tr"]][route], sc, x, prog, specs)
         ctx.case(["order", k], sample={"part": "order", "script": sc, "emitted": _c(res["em"]), "client_saw": _c(res["rv"]),
                                        "model_client_saw": _c(cases[k]["designs"]["intended"]["rv"])} if i % 1201 == 7 else None)
         obs.append({"case": {"k": k}, "obs": {"em": res["em"], "rv": res["rv"], "expects": list(cases[k]["designs"].values())}})
-        metas.append((sc, res, cases[k]["designs"]["intended"], prog, specs))
+        metas.append((sc, res, cases[k]["designs"]["intended"], prog, specs, route))
     bad = U.judge(ctx, "wire", "LogOrderClauses", obs)
     for idx, clauses in bad:
-        sc, res, exp, prog, specs = metas[idx]
+        sc, res, exp, prog, specs, route = metas[idx]
         real = [c for c in clauses if c != "Drift"]
         if not real:
             ctx.drift.append({"part": "order", "script": sc, "real_em": _c(res["em"]), "real_rv": _c(res["rv"]),
                               "model_rv": _c(exp["rv"]), "notes": res["notes"][:3]})
             continue
         for cl in real:
-            ctx.violation(cl, {"part": "order", "transport": sc["tr"], "kind": sc["kind"], "cause": order_cause(sc, prog, res)},
+            ctx.violation(cl, {"part": "order", "transport": sc["tr"], "kind": sc["kind"], "cause": order_cause(sc, prog, res),
+                               "exit": sc["ops"][-1] if sc["ops"] else "-", "route": route},
                           {"script": sc, "emitted": _c(res["em"]), "client_saw": _c(res["rv"]), "model_client_saw": _c(exp["rv"]),
-                           "notes": res["notes"][:4], "prog": prog, "specs": specs})
+                           "notes": res["notes"][:4], "prog": prog, "specs": specs, "route": route})
 
 
 def part_content(ctx: Ctx, worlds) -> None:
-    cases = table.enumerate_cases(ctx, "wire", "LogContent", invariants=["AlwaysDelivered"], name="LogContent:enumerate")
+    cases = table.enumerate_cases(ctx, "wire", "LogContent", invariants=["AlwaysDelivered", "OnlyHttpProducerTailMayBeLost"],
+                                  name="LogContent:enumerate")
     sel = []
     for i, cj in enumerate(sorted(cases, key=lambda c: str(sorted(c["case"].items())))):
         c = cj["case"]
         # quick: every (extra, emission point, transport) with two text classes and the level rotating; thorough: the product
-        if ctx.quick and ((hash_small(c) % 5) != G.LEVELS.index(c["lvl"]) or TXT_ORDER.index(c["txt"]) % 3 != hash_small({**c, "txt": ""}) % 3):
+        if ctx.quick and c["route"] == "inline" and (
+                (hash_small(c) % 5) != G.LEVELS.index(c["lvl"]) or TXT_ORDER.index(c["txt"]) % 3 != hash_small({**c, "txt": ""}) % 3):
+            continue
+        if ctx.quick and c["route"] != "inline" and hash_small(c) % 2:
             continue
         sel.append(c)
     obs, metas = [], []
     for i, c in enumerate(sel):
-        o = G.run_content_case(worlds[c["tr"]], c, 1 + i % 1900)
+        o = G.run_content_case(worlds[c["tr"]][c["route"]], c, 1 + i % 1900)
         ctx.case(["content", sorted(c.items())], sample={"part": "content", "case": c, "observed": _pub(o)} if i % 997 == 3 else None)
         obs.append({"case": c, "obs": _pub(o)})
         metas.append((c, o))
@@ -138,7 +152,8 @@ def part_content(ctx: Ctx, worlds) -> None:
     for idx, clauses in bad:
         c, o = metas[idx]
         for cl in clauses:
-            ctx.violation(cl, {"part": "content", "transport": c["tr"], "at": c["at"], "extra": c["extra"]},
+            ctx.violation(cl, {"part": "content", "transport": c["tr"], "at": c["at"], "extra": c["extra"], "exit": c["exit"],
+                               "route": c["route"]},
                           {"case": c, "observed": _pub(o), "notes": o["_notes"]})
     ctx.extra["content_cases_enumerated"] = len(cases)
     ctx.extra["content_cases_executed"] = len(sel)
@@ -148,7 +163,7 @@ TXT_ORDER = ["ascii", "empty", "unicode", "multiline", "jsonish", "long"]
 
 
 def hash_small(c: dict) -> int:
-    return sum(ord(ch) for ch in c["txt"] + c["extra"] + c["at"] + c["tr"])
+    return sum(ord(ch) for ch in c["txt"] + c["extra"] + c["at"] + c["tr"] + c.get("exit", ""))
 
 
 def part_peer(ctx: Ctx) -> None:
@@ -187,11 +202,11 @@ def replay(ctx: Ctx, rec: dict, worlds) -> None:
     if part == "order":
         sc = d["script"]
         specs = {int(k): v for k, v in d["specs"].items()}
-        res = G.run_order_script(worlds[sc["tr"]], sc, 7, d["prog"], specs)
+        res = G.run_order_script(worlds["http" if sc["tr"] == "http_buf" else sc["tr"]][d.get("route", "inline")], sc, 7, d["prog"], specs)
         obs = [{"case": {"k": "replay"}, "obs": {"em": res["em"], "rv": res["rv"], "expects": [{"em": res["em"], "rv": res["rv"]}]}}]
         module, shown = "LogOrderClauses", {"emitted": _c(res["em"]), "client_saw": _c(res["rv"])}
     elif part == "content":
-        o = G.run_content_case(worlds[d["case"]["tr"]], d["case"], 7)
+        o = G.run_content_case(worlds[d["case"]["tr"]][d["case"].get("route", "inline")], d["case"], 7)
         obs, module, shown = [{"case": d["case"], "obs": _pub(o)}], "LogContent", {"observed": _pub(o), "notes": o["_notes"]}
     else:
         v = G.peer_variants(d["case"], d["variant_full"])[d["variant_index"]]
@@ -209,13 +224,15 @@ def run(ctx: Ctx) -> None:
     for m in ("LogOrderClauses", "LogOrder", "LogContent", "LogPeer"):
         sany(wd, m)
     if getattr(ctx, "replay_record", None):
-        return replay(ctx, ctx.replay_record, {"pipe": W.PipeWorld(), "http": W.HttpWorld()})
+        return replay(ctx, ctx.replay_record, {"pipe": {r: W.PipeWorld(r) for r in ("inline", "shm", "ext")},
+                                               "http": {r: W.HttpWorld(r) for r in ("inline", "ext", "buf")}})
     ctx.rule = ("case = (a) one call script enumerated by TLC from LogOrder!Scripts executed on a real session, "
                 "(a') one LogContent case emitted by a real method, (b) one concrete log batch of a LogPeer case written "
                 "by a scripted peer and read by the real client; non-trivial = distinct (part, case, concrete variant)")
     ctx.assume("log messages are identified by a '#n# ' text prefix in the ordering part",
                "HTTP legs use the in-process falcon test client; the fake HTTP peer is a falcon sink returning raw bytes")
-    worlds = {"pipe": W.PipeWorld(), "http": W.HttpWorld()}
+    worlds = {"pipe": {r: W.PipeWorld(r) for r in ("inline", "shm", "ext")},
+              "http": {r: W.HttpWorld(r) for r in ("inline", "ext", "buf")}}
     part_order(ctx, wd, worlds)
     part_content(ctx, worlds)
     part_peer(ctx)
